@@ -17,6 +17,7 @@ import PvModel.Proofs.FD
 import PvModel.Model.Goals
 import PvModel.Proofs.FDExact
 import PvModel.Proofs.FDProgram
+import PvModel.Proofs.Live
 namespace Pv
 open Term State
 
@@ -127,6 +128,40 @@ theorem C16_program_sound {ord : Order} (ho : OrderOK ord) (dfs : Call → State
     obtain ⟨path, hpth, hsem⟩ := h3 s hs hp
     exact ⟨path, hpth, fun γ hγ => (hsem γ).1 hγ⟩⟩
 
+
+/-! ### no stored propagator is ground (the repaired D11 behaviour, as an invariant) -/
+
+/-- LIVENESS: in every state reached by posting atoms (any order, any hash-iteration order) no stored
+    propagator has all its operands ground: a constraint whose operands have all become numbers — through
+    its own propagation, a nested re-run, labelling or a unification — has been re-run, and so checked and
+    discharged or refuted.  (`run_constraints` re-establishes this from ANY state: `runConstraintsF_live`.) -/
+theorem C16_live {ord : Order} (ho : OrderOK ord) (n : Nat) (as : List FAtom) (hok : ∀ a ∈ as, a.OK)
+    (st' : State) (h : postAllF ord (State.empty n) as = .ok st') :
+    ∀ p ∈ st'.store, p.2.isDiseq = false → ∃ t ∈ operandsOf p.2, (walk st'.σ t).isNum = false := by
+  intro p hp hd
+  rcases fd_live ho n as hok st' h p hp hd with f | g
+  · exact f.elim
+  · exact g
+
+/-- ANSWERS: a state reached by posting atoms (the program's and the labelling equalities) in which every
+    operand of every stored propagator is a number, which holds no tree disequality and no domain, reports a
+    SOLUTION: every posted atom holds under its own substitution.  (Liveness shows its constraint store is
+    empty, exactness that an empty state describes its substitution.) -/
+theorem C16_ground_answer_sound {ord : Order} (ho : OrderOK ord) (n : Nat) (as : List FAtom) (hok : ∀ a ∈ as, a.OK)
+    (st' : State) (h : postAllF ord (State.empty n) as = .ok st')
+    (hg : ∀ p ∈ st'.store, p.2.isDiseq = false → ∀ t ∈ operandsOf p.2, (walk st'.σ t).isNum = true)
+    (hnd : ∀ p ∈ st'.store, p.2.isDiseq = false) (hd : st'.dstore = []) :
+    ∀ a ∈ as, a.Sat st'.σ := by
+  have hall := live_ground_closed (fd_live ho n as hok st' h) hg
+  have hs : st'.store = [] := by
+    cases hst : st'.store with
+    | nil => rfl
+    | cons p ps =>
+      have hp : p ∈ st'.store := by rw [hst]; exact List.mem_cons_self ..
+      have := hall p hp
+      rw [hnd p hp] at this
+      cases this
+  exact fd_closed ho n as hok st' h hs hd
 
 section Examples
 /-- D11 witness (`x in 1..=3, plusfd(x,x,x)` has no answer), D12 witness (`x == 1, y == 1, distinctfd([x,y])`)
